@@ -50,6 +50,7 @@ def fdae_solver(fdae: nFDAE,
     if opt is None:
         opt = Opt(stats=True)
     dt = opt.step_size
+    dt0 = dt  # the requested step
     tspan = np.array(tspan)
     T_initial = tspan[0]
     tend = tspan[-1]
@@ -73,8 +74,10 @@ def fdae_solver(fdae: nFDAE,
 
         # The last step ends at tend itself. The test tolerates the rounding accumulated in tt, so that
         # an integral number of steps is not followed by a spurious extra one.
+        # The tolerance covers the resolution of the time axis as well: for |t| >> dt one ulp of t is
+        # more than 1e-9 * dt.
         last_step = False
-        if tt + dt * (1 + 1e-9) >= tend:
+        if tt + dt >= tend - (1e-9 * dt0 + 4 * np.spacing(max(abs(tt), abs(tend)))):
             dt = tend - tt
             last_step = True
 
@@ -96,8 +99,9 @@ def fdae_solver(fdae: nFDAE,
             print(f"FDAE solver broke at time={tt} due to non-convergence")
             break
 
-        tt = tend if last_step else tt + dt
         nt = nt + 1
+        # the grid is T_initial + nt * dt0: no rounding accumulates over the steps
+        tt = tend if last_step else T_initial + nt * dt0
         u[nt] = u1
         T[nt] = tt
         if opt.pbar:
